@@ -67,6 +67,22 @@ Definition solve (snap : bool) (propose : nat -> S_) (stop : nat -> bool) (fuel 
            (t0 simTime fmin fmax : S_) : run :=
   solveTo snap propose stop fuel t0 (add O t0 simTime) fmin fmax.
 
+(* ---- one model object used for several solve() calls ------------------------------------------
+   GenericModel.solve builds a NEW DESolver on every call from the arguments of that call; nothing but
+   the model's own clock is carried from one call to the next.  A segment = the arguments of one call
+   and what the model proposes / requests during it. *)
+Record seg := mkSeg { seg_sim : S_; seg_fmin : S_; seg_fmax : S_; seg_fuel : nat;
+                      seg_propose : nat -> S_; seg_stop : nat -> bool }.
+Definition run_end (t0 : S_) (r : run) : S_ :=
+  last (map fst (match r with Done l => l | NoFuel l => l end)) t0.
+Fixpoint solve_history (snap : bool) (t0 : S_) (segs : list seg) : list (S_ * run) :=
+  match segs with
+  | [] => []
+  | s :: rest =>
+      let r := solve snap (seg_propose s) (seg_stop s) (seg_fuel s) t0 (seg_sim s) (seg_fmin s) (seg_fmax s) in
+      (t0, r) :: solve_history snap (run_end t0 r) rest
+  end.
+
 Definition pairs (r : run) : list (S_ * S_) := match r with Done l => l | NoFuel l => l end.
 Definition times (r : run) : list S_ := map fst (pairs r).
 Definition steps (r : run) : list S_ := map snd (pairs r).
@@ -76,6 +92,26 @@ End Clock.
 
 Arguments Done {O} l.
 Arguments NoFuel {O} l.
+
+Arguments mkSeg {O}.
+
+(* ---- DESolver.setFunctions: the four hook slots (preProcess, postProcess, printHeader, printStatus).
+   A hook is identified by a number; None = the built-in default (for an argument: "not given").
+   Solver.py:55-58   self.X = self.X if X is None else X *)
+Definition hooks : Type := option nat * option nat * option nat * option nat.
+Definition keep_or_set (old new : option nat) : option nat :=
+  match new with None => old | Some _ => new end.
+Definition setFunctions (h given : hooks) : hooks :=
+  let '(a, b, c, d) := h in let '(a', b', c', d') := given in
+  (keep_or_set a a', keep_or_set b b', keep_or_set c c', keep_or_set d d').
+Definition hooks_after (calls : list hooks) : hooks :=
+  fold_left setFunctions calls (None, None, None, None).
+Definition slot_pre (h : hooks) := fst (fst (fst h)).
+Definition slot_post (h : hooks) := snd (fst (fst h)).
+Definition slot_header (h : hooks) := snd (fst h).
+Definition slot_status (h : hooks) := snd h.
+(* the last hook given for a slot in a list of "given" values *)
+Definition last_given (l : list (option nat)) : option nat := fold_left keep_or_set l None.
 
 (* index of the first true flag among stop 0 .. stop (n-1) *)
 Fixpoint first_true_from (stop : nat -> bool) (k n : nat) : option nat :=
